@@ -239,6 +239,13 @@ def run(repo, rep):
     rule_semantics_of_helpers(repo, rep)
     rule_round3(repo, rep)
     rep.undecided("that an operator satisfying all constraints ends up inside an Ethos-U subgraph after rewriting, packing and extraction")
+    # an operator left on the CPU is written back unchanged: the writer restores what the reader changed [shared with C11-d]
+    from . import c11
+
+    rep.run_borrowed(c11, {"C11-d": "C16-d"}, repo, only_sites=("tflite_writer",))
+    _so, _sem = repo.mod("tflite_supported_operators"), repo.mod("tflite_model_semantic")
+    rule_round4(repo, rep, [("tflite_supported_operators", "TFLiteSupportedOperators", registrations(repo, _so, "TFLiteSupportedOperators")[1]),
+                            ("tflite_model_semantic", "TFLiteSemantic", registrations(repo, _sem, "TFLiteSemantic")[1])])
     so = repo.mod("tflite_supported_operators")
     sem = repo.mod("tflite_model_semantic")
     g_so, s_so, ex_so, se_so = registrations(repo, so, "TFLiteSupportedOperators")
@@ -529,3 +536,85 @@ def rule_round3(repo, rep):
                     rep.bad("C16-f", f"ethosu/vela/tflite_supported_operators.py:{q}", f"`{str(norm(st))[:60]}` inside `for {str(norm(lp.target))} in {str(norm(lp.iter))[:40]}`",
                             "the verdict is overwritten per element: a violation found for an earlier tensor is forgotten when a later tensor is fine")
     rep.floor("C16-f", 15)
+
+
+def rule_round4(repo, rep, regs):
+    """(b) every operator attribute a constraint reads is delivered by the reader for the operators the constraint is registered for;
+    the depthwise depth multiplier is weight channels / IFM channels."""
+    tm = repo.mod("tflite_mapping")
+    bom = [st for st in tm.tree.body if isinstance(st, (ast.Assign, ast.AnnAssign)) and str(norm(st.targets[0] if isinstance(st, ast.Assign) else st.target)) == "builtin_operator_map"]
+    if len(bom) != 1 or not isinstance(bom[0].value, ast.Dict):
+        raise AnalysisError("tflite_mapping.builtin_operator_map literal not found")
+    top = {str(norm(st.targets[0])): st.value for st in tm.tree.body if isinstance(st, ast.Assign) and len(st.targets) == 1 and isinstance(st.targets[0], ast.Name)}
+
+    def member_name(e):
+        if isinstance(e, ast.Name) and e.id in top:
+            e = top[e.id]
+        if isinstance(e, ast.Constant) and isinstance(e.value, str):
+            return e.value
+        if isinstance(e, ast.Tuple) and e.elts and isinstance(e.elts[0], ast.Constant):
+            return e.elts[0].value
+        return None
+
+    members = {}
+    for v in bom[0].value.values:
+        if not (isinstance(v, ast.Tuple) and len(v.elts) >= 2):
+            continue
+        opn = str(norm(v.elts[0]))
+        ser = v.elts[1]
+        if isinstance(ser, ast.Name) and ser.id in top:
+            ser = top[ser.id]
+        if isinstance(ser, ast.Call) and call_name(ser) == "OptionsSerializer" and members.get(opn, set()) is not None:
+            ms = set()
+            if len(ser.args) > 1 and isinstance(ser.args[1], (ast.Tuple, ast.List)):
+                ms = {member_name(e) for e in ser.args[1].elts}
+            if None in ms:
+                members[opn] = None
+            else:
+                members.setdefault(opn, set()).update(ms)
+        else:
+            members[opn] = None
+    if sum(1 for v in members.values() if v) < 60:
+        raise AnalysisError("option serializer member lists not recognised")
+    # attributes the reader / the semantic checks add for every operator before the constraints run
+    added = set()
+    for mn in ("tflite_reader", "tflite_model_semantic", "tflite_supported_operators"):
+        for st in ast.walk(repo.mod(mn).tree):
+            if isinstance(st, ast.Assign):
+                for t in st.targets:
+                    if isinstance(t, ast.Subscript) and str(norm(t.value)).endswith("attrs") and isinstance(t.slice, ast.Constant):
+                        added.add(t.slice.value)
+    n = 0
+    for mn, cls, spec in regs:
+        m = repo.mod(mn)
+        for opn, cons in sorted(spec.items()):
+            ms = members.get(f"Op.{opn}")
+            if ms is None:
+                continue
+            for c in cons:
+                fn = m.functions.get(f"{cls}.{c}")
+                if fn is None:
+                    continue
+                for x in ast.walk(fn):
+                    k = None
+                    if isinstance(x, ast.Subscript) and isinstance(x.ctx, ast.Load) and str(norm(x.value)) == "op.attrs" and isinstance(x.slice, ast.Constant):
+                        k = x.slice.value
+                    if isinstance(x, ast.Call) and str(norm(x.func)) == "op.attrs.get" and x.args and isinstance(x.args[0], ast.Constant):
+                        k = x.args[0].value
+                    if k is None:
+                        continue
+                    n += 1
+                    rep.check(k in ms or k in added, "C16-b", f"ethosu/vela/{mn}.py:{cls}.{c}", f"attribute '{k}' read for {opn} is delivered by its option table (or set by the reader)",
+                              f"the option serializer of {opn} reads {sorted(ms)}: '{k}' is never set, the constraint sees its default for every model and cannot reject what its text excludes")
+    if n < 25:
+        raise AnalysisError(f"constraint attribute reads: only {n} found")
+    # depth multiplier of a depthwise convolution
+    rd = repo.mod("tflite_reader")
+    po = rd.func("TFLiteSubgraph.parse_operator")
+    dm = [st for st in ast.walk(po) if isinstance(st, ast.Assign) and str(norm(st.targets[0])) == "op.attrs['depth_multiplier']"]
+    if len(dm) != 1:
+        raise AnalysisError("parse_operator: depth_multiplier assignment not found")
+    v = dm[0].value
+    ok = isinstance(v, ast.BinOp) and isinstance(v.op, (ast.FloorDiv, ast.Div)) and str(norm(v.right)) in ("op.ifm.shape[-1]", "op.ifm.shape[3]") and str(norm(v.left)).startswith("op.weights.shape[")
+    rep.check(ok, "C16-b", "ethosu/vela/tflite_reader.py:TFLiteSubgraph.parse_operator", "depth_multiplier = weight channels // IFM channels (what 'For depth multipliers > 1, IFM channels must be 1' tests)",
+              f"`{str(norm(v))}`: the depthwise constraint then sees multiplier 1 for every supported and unsupported case alike")
